@@ -282,6 +282,26 @@ def special_d(rng, tier):
         rn = G.Renderer(G.Layout(rng, mode="plain"))
         rn.rr(rr)
         out.append(S.d("RR", bytes(rn.buf)))
+    # zero-length elements followed by further elements, in every list-like place: the classic way to make a loop stop
+    # advancing (empty character-strings in TXT, zero-length options / items / parameters / alpn ids, empty RDATA)
+    st = lambda b: bytes([len(b)]) + b
+    par = lambda k, v: struct.pack(">HH", k, len(v)) + v
+    opt = lambda c, v: struct.pack(">HH", c, len(v)) + v
+    for strs in ([b"", b"abc"], [b"abc", b""], [b"", b""], [b"", b"", b"a"], [b"a\x00", b"b"], [b"\x00"], [b"\x00\x00", b"x"]):
+        out.append(S.d("RR", rr_wire(16, 1, 5, b"".join(st(x) for x in strs))))
+    out.append(S.d("RR", rr_wire(16, 1, 5, b"\x00\x00")))
+    out.append(S.d("RR", rr_wire(13, 1, 5, st(b"") + st(b"os"))))
+    out.append(S.d("RR", rr_wire(13, 1, 5, st(b"") + st(b""))))
+    out.append(S.d("RR", rr_wire(20, 1, 5, st(b"") + st(b""))))
+    out.append(S.d("RR", rr_wire(27, 1, 5, st(b"1") + st(b"") + st(b"2"))))
+    out.append(S.d("RR", opt_rr(512, 0, opt(12, b"") + opt(12, b"\x00") + opt(12, b""))))
+    out.append(S.d("RR", opt_rr(512, 0, opt(12, b"") + opt(10, bytes(8)) + opt(12, b"") + opt(8, struct.pack(">HBB", 1, 0, 0)))))
+    out.append(S.d("RR", rr_wire(42, 1, 5, struct.pack(">HBB", 1, 0, 0) * 3 + struct.pack(">HBB", 2, 0, 0x80) + struct.pack(">HBB", 1, 8, 1) + b"\x0a")))
+    out.append(S.d("RR", rr_wire(64, 1, 5, b"\x00\x01\x00" + par(1, b"") + par(2, b"") + par(4, b"") + par(6, b"") + par(7, b"") + par(65535, b""))))
+    out.append(S.d("RR", rr_wire(64, 1, 5, b"\x00\x01\x00" + par(1, st(b"") + st(b"h2") + st(b"")) + par(3, b"\x00\x50"))))
+    out.append(S.d("RR", rr_wire(65, 1, 5, b"\x00\x01\x00" + par(0, b"") + par(5, b"\x00\x00") + par(7, b""))))
+    for t in (10, 22, 31, 32):
+        out.append(S.d("Dns", msg_wire(an=[rr_wire(t, 1, 5, b""), rr_wire(t, 1, 5, b""), rr_wire(1, 1, 5, bytes(4))], fl=0x8000)))
     return out
 
 
